@@ -149,8 +149,22 @@ func (g *Gen) globalID(gl *ssa.Global) int {
 	return id
 }
 
+func (g *Gen) funcIDByName(k string) int {
+	if id, ok := g.funcIDs[k]; ok {
+		return id
+	}
+	id := 2000000 + len(g.funcIDs)
+	g.funcIDs[k] = id
+	return id
+}
+
 func (g *Gen) funcID(f *ssa.Function) int {
 	k := f.String()
+	if f.Object() != nil {
+		if fo, ok := f.Object().(*types.Func); ok {
+			k = fo.FullName()
+		}
+	}
 	if id, ok := g.funcIDs[k]; ok {
 		return id
 	}
@@ -199,6 +213,10 @@ func (g *Gen) Load(tags string, pkgPaths []string) (*program, error) {
 			continue
 		}
 		p.fns[k] = fn
+		if strings.HasPrefix(name, "(") && !strings.HasPrefix(name, "(*") {
+			// value receiver: (T).M is also addressable as T.M
+			p.fns[pk+"."+strings.Replace(strings.Replace(name, "(", "", 1), ")", "", 1)] = fn
+		}
 	}
 	g.progs[key] = p
 	return p, nil
